@@ -18,7 +18,7 @@ CONSTANTS NF, MaxLen, KeyOf(_), SrcOf(_, _), ModeKey(_), Preseed, EmitBeh,
 
 VARIABLES cache, hist, bad
 vars == <<cache, hist, bad>>
-View == <<cache, bad>>
+View == <<cache, bad, Len(hist), IF SameKeyOnly /\ Len(hist) > 0 THEN KeyOf(hist[1].f) ELSE 0>>   \* everything the enabling conditions read
 
 Forms == 1..NF
 Modes == {0, 1}
